@@ -239,6 +239,16 @@ def run(prop, tier, replay=None):
         sc = dict(r["sc"])
         path = vlib.save_replay(prop, "drain-%s-%s-%d" % (sc["policy"], "-".join(sc["holders"]) or "core", sc["seed"]), [sc])
         violations.append((r, path))
+    # the overflow fallback (write buffer full: the writer runs the maintenance itself and hands it its own event): small write buffer,
+    # foreign holder of the eviction mutex; audited before any further call (WRAudit.tla: C14.bound_restored_only_by_a_further_call)
+    fallback_viol = []
+    if not replay:
+        import wrcheck
+        wcov, wviol, wbroken = wrcheck.run("C14", tier, None, collect_only=True)
+        cov["overflow_fallback_audits"] = wcov["traces_validated_against_impl"]
+        cov["traces_validated_against_impl"] += wcov["traces_validated_against_impl"]
+        broken += wbroken
+        fallback_viol = wviol
     printed = set()
     for fd, r in known:
         if fd["id"] not in printed:
@@ -246,10 +256,15 @@ def run(prop, tier, replay=None):
             print("KNOWN-FINDING: property=%s %s (%s)" % (prop, fd["id"], fd["title"]))
     cov["explanation"] = ("states/transitions: TLC totals for the Drain.tla instances in 'mc' (NoStranded, LockFreeAtEnd hold); "
                           "traces_validated_against_impl: scenarios executed on the real cache under the gate scheduler and audited")
-    vlib.write_evidence(prop, tier, "model_checking", cov, time.time() - t0, violations=len(violations),
+    vlib.write_evidence(prop, tier, "model_checking", cov, time.time() - t0, violations=len(violations) + len(fallback_viol),
                         assumptions=["goroutines are serialised at hook granularity; races inside a step are not explored",
                                      "task pool of the model bounded (CONSTRAINT PoolOK)",
                                      "default executor, size-only cache (no periodic clean-up goroutine)"])
+    if fallback_viol:
+        for x, sc, path in fallback_viol[:10]:
+            print("VIOLATION property=%s replay=%s" % (prop, path))
+            vlib.log("  %s: %s" % (x["pred"], str(x["detail"])[:300]))
+        return 1
     if broken:
         for b in broken:
             vlib.log("BROKEN:", b)
